@@ -417,3 +417,89 @@ def represent_keyed(rng, j, key_types=("string", "mystring", "jnum"), elem_types
     if isinstance(j, list):
         return {"t": "[]any", "v": [represent_keyed(rng, x, key_types, elem_types) for x in j]}
     return represent(rng, j, wrap=False)
+
+
+# ---------------------------------------------------------------------------------------------
+# byte sequences: a JSON array of integers 0..255 is what a []byte, a [N]byte, a *[N]byte and a []any of small numbers all denote
+
+
+def gen_bytes_json(rng, n=None):
+    n = rng.choice([0, 1, 2, 2, 3, 4, 4, 6]) if n is None else n
+    return [Num(str(rng.choice([0, 1, 2, 10, 255, rng.randint(0, 255)]))) for _ in range(n)]
+
+
+def is_bytes_json(j):
+    return isinstance(j, list) and all(isinstance(x, Num) and x.frac().denominator == 1 and 0 <= x.frac() <= 255 for x in j)
+
+
+def represent_bytes(rng, j, by_value=0.6):
+    """A Go representation of j in which every array of small integers is (mostly) a BYTE sequence: a Go array [N]uint8 held BY VALUE
+    (top level, interface element, map value, element of an outer Go array: not addressable), a []uint8, a *[N]uint8, an element of a
+    slice of arrays ([][N]uint8: addressable), or now and then a []any / [N]int of the same numbers. Arrays of byte sequences and
+    objects of byte sequences use typed containers when their members allow it."""
+    if is_bytes_json(j):
+        n = len(j)
+        r = rng.random()
+        if r < by_value:
+            T = "[%d]uint8" % n
+        elif r < by_value + 0.25:
+            T = "[]uint8"
+        else:
+            T = rng.choice(["*[%d]uint8" % n, "*[]uint8", "[]any", "[%d]any" % n, "[%d]int" % n, "[]uint16", "[%d]int8" % n, "[]jnum"])
+        d = represent_as(rng, j, T)
+        return d if d is not None else represent_as(rng, j, "[]any")
+    if isinstance(j, list):
+        if j and all(is_bytes_json(x) for x in j) and rng.random() < 0.5:
+            n = len(j[0])
+            cands = ["[][]uint8", "[%d][]uint8" % len(j)]
+            if all(len(x) == n for x in j):
+                cands += ["[%d][%d]uint8" % (len(j), n)] * 3 + ["[][%d]uint8" % n, "*[%d][%d]uint8" % (len(j), n)]
+            d = represent_as(rng, j, rng.choice(cands))
+            if d is not None:
+                return d
+        T = rng.choice(["[]any", "[]any", "[%d]any" % len(j)])
+        return {"t": T, "v": [represent_bytes(rng, x, by_value) for x in j]}
+    if isinstance(j, Obj):
+        vals = [v for _, v in j.kvs]
+        if vals and all(is_bytes_json(v) for v in vals) and rng.random() < 0.5:
+            n = len(vals[0])
+            cands = ["map[string][]uint8"]
+            if all(len(v) == n for v in vals):
+                cands += ["map[string][%d]uint8" % n] * 3 + ["map[mystring][%d]uint8" % n]
+            d = represent_as(rng, j, rng.choice(cands))
+            if d is not None:
+                return d
+        return {"t": "map[string]any", "v": [[k, represent_bytes(rng, v, by_value)] for k, v in j.kvs]}
+    return represent(rng, j, wrap=False)
+
+
+def gen_bytes_pair(rng):
+    """(j1, j2): byte sequences — or an array / object of them — equal, differing in one byte, or of different length."""
+    n = rng.choice([0, 1, 2, 2, 3, 4, 4, 6])
+    shape = rng.choice(["seq", "seq", "seq", "list", "list", "obj"])
+    if shape == "seq":
+        j1 = gen_bytes_json(rng, n)
+    elif shape == "list":
+        j1 = [gen_bytes_json(rng, n) for _ in range(rng.randint(1, 3))]
+    else:
+        j1 = Obj([(k, gen_bytes_json(rng, n)) for k in rng.sample(NAMES, rng.randint(1, 2))])
+    r = rng.random()
+    if r < 0.6:
+        return j1, j1
+    j2 = _mutate_byte(rng, j1, same_len=r < 0.85)
+    return j1, j2
+
+
+def _mutate_byte(rng, j, same_len=True):
+    if is_bytes_json(j):
+        if same_len and j:
+            i = rng.randrange(len(j))
+            old = int(j[i].text)
+            return j[:i] + [Num(str((old + rng.choice([1, 128, 255])) % 256))] + j[i + 1:]
+        return j + [Num("0")] if rng.random() < 0.5 or not j else j[:-1]
+    if isinstance(j, list):
+        i = rng.randrange(len(j))
+        return j[:i] + [_mutate_byte(rng, j[i], same_len)] + j[i + 1:]
+    i = rng.randrange(len(j.kvs))
+    k, v = j.kvs[i]
+    return Obj(j.kvs[:i] + [(k, _mutate_byte(rng, v, same_len))] + j.kvs[i + 1:])
